@@ -28,6 +28,7 @@ structure Hdr where
   factors : List (List Nat)  -- 4 x 6
   tokenProbs : List Nat      -- 4 * 8 * 3 * 11
   skipProb : Option Nat
+  rest : Dec                 -- the first partition's decoder after the header
 
 /-- `n` optional signed values of `bits` bits -/
 def readSigneds (bits : Nat) : Nat → Dec → List Int × Dec
@@ -115,6 +116,6 @@ def parse (data : List Nat) : Option Hdr :=
         if isPastEof sp.2 then none else
         some { pixelType := pt.1, segEnabled := se.1, updateMap := updateMap, deltaValues := dv, quantLevel := ql, lfLevel := ll,
                treeProbs := tps, filterSimple := ft.1, filterLevel := fl.1, sharpness := sh.1, refDelta := rd, modeDelta := md,
-               partsLog2 := np.1, factors := factors, tokenProbs := tp.1, skipProb := sp.1 }
+               partsLog2 := np.1, factors := factors, tokenProbs := tp.1, skipProb := sp.1, rest := sp.2 }
 
 end Vp8Header
